@@ -911,8 +911,6 @@ Proof.
   destruct (i_cont xit) as [[f k|f k|f k|y|y]|]; try reflexivity; exfalso; destruct (Hn y); congruence.
 Qed.
 
-Definition fit_of_place (p : option place) : option nat :=
-  match p with Some (PSlot f _) | Some (PSet f _) | Some (PRack f _) => Some f | _ => None end.
 Lemma item_fit_child w j it x xit : get_item w j = Some it ->
   (i_cont it = Some (PCharge x) \/ i_cont it = Some (PAuto x)) -> get_item w x = Some xit ->
   (forall y, i_cont xit <> Some (PCharge y) /\ i_cont xit <> Some (PAuto y)) ->
@@ -1162,6 +1160,48 @@ Proof.
     rewrite (Fr4 j Na). destruct U1 as (_ & G). now apply G.
 Qed.
 
+(* ------------------------------------------------------------------ *)
+(* loaded from the fit's current source                                 *)
+
+(* a directly held item that is loaded sits in a container of a fit, and is loaded from the source the solar
+   system of that fit has now *)
+Definition LS (w : world) : Prop :=
+  forall j jit src, get_item w j = Some jit -> direct jit -> i_loaded jit = Some src ->
+    exists f, fit_of_place (i_cont jit) = Some f /\ fit_source_id w f = Some src.
+
+Definition same_src (w w' : world) : Prop := forall f, fit_source_id w' f = fit_source_id w f.
+Lemma same_src_refl w : same_src w w. Proof. intros f; reflexivity. Qed.
+Lemma same_src_trans a b c : same_src a b -> same_src b c -> same_src a c.
+Proof. intros H1 H2 f. now rewrite H2, H1. Qed.
+Lemma same_src_structure w w' : structure w' = structure w -> same_src w w'.
+Proof.
+  intros H f. unfold structure in H. unfold fit_source_id, fit_solsys, get_fit, get_ss.
+  assert (E1 : w_fits w' = w_fits w) by congruence. assert (E2 : w_ss w' = w_ss w) by congruence. now rewrite E1, E2.
+Qed.
+
+(* every directly held item of the new world is unloaded, or was there with the same container reference and
+   loaded flag *)
+Lemma LS_frame w w' :
+  LS w -> same_src w w' ->
+  (forall j jit', get_item w' j = Some jit' -> direct jit' ->
+     i_loaded jit' = None \/
+     exists jit, get_item w j = Some jit /\ direct jit /\ i_loaded jit = i_loaded jit' /\ i_cont jit = i_cont jit') ->
+  LS w'.
+Proof.
+  intros L Ss Fr j jit' src G D Hl. destruct (Fr j jit' G D) as [E|(jit & G0 & D0 & El & Ec)]; [congruence|].
+  rewrite <- El in Hl. destruct (L j jit src G0 D0 Hl) as (f & Ef & Es). exists f. split; [now rewrite <- Ec|now rewrite Ss].
+Qed.
+
+(* only item c changes, and c is a charge / autocharge *)
+Lemma LS_upd1_leaf w w' c cit' :
+  LS w -> upd1 w w' c -> structure w' = structure w -> get_item w' c = Some cit' -> ~ direct cit' -> LS w'.
+Proof.
+  intros L (_ & G) St Gc Dc. apply (LS_frame w w' L (same_src_structure _ _ St)).
+  intros j jit' Gj Dj. right. destruct (Nat.eq_dec j c) as [->|N].
+  - rewrite Gc in Gj. injection Gj as <-. contradiction.
+  - exists jit'. rewrite <- (G j N). auto.
+Qed.
+
 (* the links after a directly held item was unloaded: its autocharges are gone from its dictionary and name
    nothing, everything else is as before *)
 Lemma unload_dir_CP n s m mit :
@@ -1210,15 +1250,32 @@ Proof.
       * rewrite (Fr x Nx Na) in G. now apply (C3 x xit').
 Qed.
 
+Lemma unload_dir_LS n s m mit :
+  J (fst s) -> KK (fst s) -> LS (fst s) -> get_item (fst s) m = Some mit -> direct mit ->
+  w_err (fst (unload (S (S (S n))) s m)) = None -> LS (fst (unload (S (S (S n))) s m)).
+Proof.
+  intros Js K L Hm Dm He.
+  destruct (unload_dir n s m mit Js K Hm Dm He) as (J' & K' & _ & (mit' & Gm' & Lm' & _) & Fr).
+  pose proof (unload_KEEP (S (S (S n))) s m Js) as (_ & _ & _ & Ck).
+  apply (LS_frame (fst s) _ L (same_src_structure _ _ (S_unload _ s m))).
+  intros j jit' Gj Dj. destruct (Nat.eq_dec j m) as [->|Nj].
+  - left. rewrite Gm' in Gj. injection Gj as <-. exact Lm'.
+  - right. destruct (in_dec Nat.eq_dec j (map snd (i_autos mit))) as [Ia|Na].
+    + exfalso. apply in_map_iff in Ia as ([e a] & Ea & Ia). cbn in Ea. subst a.
+      destruct Js as (_ & _ & J4 & _). pose proof (Ck _ _ (J4 m mit e j Hm Ia)) as Ca. unfold cls_of in Ca.
+      rewrite Gj in Ca. injection Ca as Ca. apply (proj2 (direct_childcls jit')); [left; exact Ca|exact Dj].
+    + exists jit'. rewrite <- (Fr j Nj Na). auto.
+Qed.
+
 Theorem remove_dir n s m mit :
-  J (fst s) -> KK (fst s) -> CP (fst s) -> get_item (fst s) m = Some mit -> direct mit ->
+  J (fst s) -> KK (fst s) -> CP (fst s) -> LS (fst s) -> get_item (fst s) m = Some mit -> direct mit ->
   w_err (fst (remove_item (S (S (S (S n)))) s m)) = None ->
   let w' := fst (remove_item (S (S (S (S n)))) s m) in
   KK w' /\ w_srcs w' = w_srcs (fst s) /\
   (exists mit', get_item w' m = Some mit' /\ i_loaded mit' = None /\ i_cont mit' = None /\ i_autos mit' = [] /\
-                i_cls mit' = i_cls mit /\ i_state mit' = i_state mit /\ i_charge mit' = i_charge mit) /\ CP w'.
+                i_cls mit' = i_cls mit /\ i_state mit' = i_state mit /\ i_charge mit' = i_charge mit) /\ CP w' /\ LS w'.
 Proof.
-  intros Js K Cp Hm Dm.
+  intros Js K Cp Ls Hm Dm.
   set (fit := item_fit (fst s) m).
   set (one := fun (s : st) sub => let s := unload (S (S (S n))) s sub in
                                   match fit with
@@ -1248,13 +1305,14 @@ Proof.
   assert (Heu : w_err (fst su) = None) by (now rewrite <- Esu).
   destruct (unload_dir n s m mit Js K Hm Dm Heu) as (Ju & Ku & Sru & (mu & Gmu & Lmu & Amu & Ecl & Eco & Est & Ech & Etd & Emo) & Fru).
   pose proof (unload_dir_CP n s m mit Js K Cp Hm Dm Heu) as Cpu.
-  fold su in Ju, Ku, Sru, Gmu, Fru, Cpu.
+  pose proof (unload_dir_LS n s m mit Js K Ls Hm Dm Heu) as Lsu.
+  fold su in Ju, Ku, Sru, Gmu, Fru, Cpu, Lsu.
   assert (Dmu : direct mu) by (unfold direct in *; now rewrite Ecl).
   (* the charge, if any, is unloaded next *)
   assert (Gm1 : get_item (fst s1) m = Some mu) by (now rewrite Esu).
   assert (S2 : J (fst s2) /\ KK (fst s2) /\ w_srcs (fst s2) = w_srcs (fst su) /\ get_item (fst s2) m = Some mu /\
                (forall c, i_charge mu = Some c -> exists cit, get_item (fst s2) c = Some cit /\ i_loaded cit = None) /\
-               CP (fst s2)).
+               CP (fst s2) /\ LS (fst s2)).
   { assert (Eone : forall s0 x, w_err (fst (one s0 x)) = None -> fst (one s0 x) = fst (unload (S (S (S n))) s0 x)).
     { intros s0 x H. unfold one in *. cbv zeta in *. destruct fit as [f|]; [|reflexivity].
       now apply with_msgs_removed_same. }
@@ -1267,7 +1325,7 @@ Proof.
       { destruct Ju as (_ & _ & _ & J5). apply (J5 m mu c Gmu Ec). }
       destruct (cls_of_some' _ _ _ Cc) as (cit & Gc & Ecc).
       assert (Dc : ~ direct cit) by (apply direct_childcls; right; exact Ecc).
-      rewrite <- Esu in Ku, Gc, Ju, Cpu.
+      rewrite <- Esu in Ku, Gc, Ju, Cpu, Lsu.
       destruct (unload_leaf (S (S n)) s1 c cit Ku Gc Dc Hec) as (Kc & Uc & cit' & Gc' & Lc' & Vc' & _).
       fold sc in Kc, Uc, Gc'.
       assert (Jc : J (fst sc)) by (apply (unload_KEEP (S (S (S n))) s1 c Ju)).
@@ -1277,10 +1335,12 @@ Proof.
       + rewrite <- Esu. apply Uc.
       + destruct Uc as (_ & G). rewrite (G m); [exact Gm1|]. intros E. now apply Ncm.
       + intros c0 E0. injection E0 as <-. exists cit'. now split.
-      + apply (CP_same_l (fst s1)); [|exact Cpu]. apply (same_l_upd1_view (fst s1) _ c cit cit' Uc Gc Gc' Vc').
+      + split; [apply (CP_same_l (fst s1)); [|exact Cpu]; apply (same_l_upd1_view (fst s1) _ c cit cit' Uc Gc Gc' Vc')|].
+        apply (LS_upd1_leaf (fst s1) _ c cit' Lsu Uc (S_unload _ s1 c) Gc').
+        unfold view in Vc'. assert (Ecx : i_cls cit' = i_cls cit) by congruence. unfold direct in *. now rewrite Ecx.
     - cbn [fold_left]. rewrite Esu.
-      split; [exact Ju|split; [exact Ku|split; [reflexivity|split; [exact Gmu|split; [intros c0 E0; discriminate|exact Cpu]]]]]. }
-  destruct S2 as (J2 & K2 & Sr2 & Gm2 & Ch2 & Cp2).
+      split; [exact Ju|split; [exact Ku|split; [reflexivity|split; [exact Gmu|split; [intros c0 E0; discriminate|split; [exact Cpu|exact Lsu]]]]]]. }
+  destruct S2 as (J2 & K2 & Sr2 & Gm2 & Ch2 & Cp2 & Ls2).
   unfold upd_item. rewrite Gm2.
   assert (Hnc : forall y, i_cont mu <> Some (PCharge y) /\ i_cont mu <> Some (PAuto y))
     by (apply (direct_cont_fit (fst s2) m mu J2 K2 Gm2 Dmu)).
@@ -1299,8 +1359,12 @@ Proof.
         rewrite Gm2 in Gx. injection Gx as <-. rewrite Amu in Hx. destruct Hx.
   - change (w_srcs (fst s2) = w_srcs (fst s)). now rewrite Sr2, Sru.
   - split; [exists (it_set_cont mu None); split; [apply get_put_item_same'|]; cbn; repeat split; assumption|].
-    apply (CP_put_unlisted (fst s2) m mu (it_set_cont mu None) Cp2 Gm2 eq_refl eq_refl).
-    apply (CP_direct_unlisted (fst s2) m mu Cp2 Gm2 Hnc).
+    split; [apply (CP_put_unlisted (fst s2) m mu (it_set_cont mu None) Cp2 Gm2 eq_refl eq_refl);
+            apply (CP_direct_unlisted (fst s2) m mu Cp2 Gm2 Hnc)|].
+    apply (LS_frame (fst s2) _ Ls2); [apply same_src_structure; apply S_put_item|].
+    intros j jit' Gj Dj. destruct (Nat.eq_dec j m) as [->|Nj].
+    + left. rewrite get_put_item_same' in Gj. injection Gj as <-. cbn. exact Lmu.
+    + right. rewrite get_put_item_other in Gj by exact Nj. exists jit'. auto.
 Qed.
 
 (* ------------------------------------------------------------------ *)
@@ -1649,17 +1713,21 @@ Theorem load_dir n s m mit :
   let w' := fst (load (S (S (S n))) s m) in
   J w' /\ KK w' /\ w_srcs w' = w_srcs (fst s) /\
   (exists mit', get_item w' m = Some mit' /\ i_cls mit' = i_cls mit /\ i_cont mit' = i_cont mit /\
-                i_state mit' = i_state mit /\ i_charge mit' = i_charge mit /\ i_tid mit' = i_tid mit) /\
+                i_state mit' = i_state mit /\ i_charge mit' = i_charge mit /\ i_tid mit' = i_tid mit /\
+                (forall src, i_loaded mit' = Some src ->
+                   exists f, item_fit (fst s) m = Some f /\ fit_source_id (fst s) f = Some src)) /\
   (forall j, j <> m -> (j < w_next (fst s))%nat -> get_item w' j = get_item (fst s) j) /\ CP w'.
 Proof.
   intros Js K Cp Hm Dm Hl Hok.
   assert (Same : let w' := fst s in
                  J w' /\ KK w' /\ w_srcs w' = w_srcs (fst s) /\
                  (exists mit', get_item w' m = Some mit' /\ i_cls mit' = i_cls mit /\ i_cont mit' = i_cont mit /\
-                               i_state mit' = i_state mit /\ i_charge mit' = i_charge mit /\ i_tid mit' = i_tid mit) /\
+                               i_state mit' = i_state mit /\ i_charge mit' = i_charge mit /\ i_tid mit' = i_tid mit /\
+                               (forall src, i_loaded mit' = Some src ->
+                                  exists f, item_fit (fst s) m = Some f /\ fit_source_id (fst s) f = Some src)) /\
                  (forall j, j <> m -> (j < w_next (fst s))%nat -> get_item w' j = get_item (fst s) j) /\ CP w').
   { cbv zeta. split; [exact Js|split; [exact K|split; [reflexivity|split; [|split; [auto|exact Cp]]]]].
-    exists mit. split; [exact Hm|]. repeat split; reflexivity. }
+    exists mit. split; [exact Hm|]. repeat split; try reflexivity. intros src E. congruence. }
   cbn [load]. rewrite Hm.
   destruct (item_fit (fst s) m) as [f|] eqn:Ef; [|intros _; exact Same].
   destruct (fit_source_id (fst s) f) as [src|] eqn:Esrc; [|intros _; exact Same].
@@ -1715,7 +1783,8 @@ Proof.
     apply (NAtid_srcs (fst s) (fst s2) _ S12). apply (Hauto e ef aa q It Ge Ha Hq).
   - exact He.
   - cbv zeta. split; [exact J3|split; [exact K3|split; [congruence|split; [|split]]]].
-    + exists mit3. split; [exact G3|]. unfold mk in M3. cbn in M3. repeat split; congruence.
+    + exists mit3. split; [exact G3|]. unfold mk in M3. cbn in M3. repeat split; try congruence.
+      intros src0 E0. exists f. split; [reflexivity|]. assert (E3 : i_loaded mit3 = Some src) by congruence. congruence.
     + intros j Nj Hlt. rewrite F3; [|exact Nj|].
       * destruct U2 as (_ & Gx). rewrite (Gx j Nj). unfold s1, lift. cbn [fst]. now apply get_put_item_other.
       * assert (w_next (fst s2) = w_next (fst s)).
@@ -1724,16 +1793,144 @@ Proof.
     + exact Cp3.
 Qed.
 
+Lemma autos_fold_direct n t m : forall (l : list (Z * effect)) (s : st) (mit : item),
+  J (fst s) -> KK (fst s) -> get_item (fst s) m = Some mit -> direct mit -> i_loaded mit <> None ->
+  NoDup (map fst l) -> (forall e, In e (map fst l) -> al_get zeqb (i_autos mit) e = None) ->
+  (forall e ef aa q, In (e, ef) l -> e_autocharge_attr ef = Some aa -> al_get zeqb (t_attrs t) aa = Some q ->
+                     NAtid (fst s) (q_trunc q)) ->
+  w_err (fst (fold_left (auto_stepf (S (S n)) t m) l s)) = None ->
+  forall j jit, get_item (fst (fold_left (auto_stepf (S (S n)) t m) l s)) j = Some jit -> direct jit -> j <> m ->
+                get_item (fst s) j = Some jit.
+Proof.
+  induction l as [|[e ef] l IH]; intros s mit Js K Hm Dm Hld Hnd Hk Hna He j jit Gj Dj Nj; cbn [fold_left] in *.
+  - exact Gj.
+  - inversion Hnd as [|? ? Ne Hnd']; subst.
+    set (s1 := auto_stepf (S (S n)) t m s (e, ef)) in *.
+    assert (He1 : w_err (fst s1) = None).
+    { revert He. apply (C_fold sticky sticky_refl sticky_trans). intros; apply auto_stepf_sticky. }
+    (* one step, as in autos_fold *)
+    assert (Step : J (fst s1) /\ KK (fst s1) /\ w_srcs (fst s1) = w_srcs (fst s) /\
+                   (exists mit1, get_item (fst s1) m = Some mit1 /\ mk mit1 = mk mit /\
+                                 (forall e', e' <> e -> al_get zeqb (i_autos mit1) e' = al_get zeqb (i_autos mit) e')) /\
+                   (forall x xit, get_item (fst s1) x = Some xit -> direct xit -> x <> m -> get_item (fst s) x = Some xit)).
+    { unfold s1, auto_stepf in *. cbn [snd fst] in *. destruct (e_autocharge_attr ef) as [aa|] eqn:Ea.
+      - destruct (al_get zeqb (t_attrs t) aa) as [q|] eqn:Eq.
+        + cbv zeta in *.
+          assert (Hk0 : al_get zeqb (i_autos mit) e = None) by (apply Hk; now left).
+          assert (Hn0 : NAtid (fst s) (q_trunc q)) by (apply (Hna e ef aa q); [now left|exact Ea|exact Eq]).
+          destruct (new_auto_step n s m mit e (q_trunc q) Js K Hm Dm Hld Hk0 Hn0 He1) as (J1 & K1 & S1 & G1 & F1 & _).
+          split; [exact J1|split; [exact K1|split; [exact S1|split]]].
+          * eexists. split; [exact G1|]. split; [reflexivity|]. intros e' Ne'. cbn [i_autos it_set_autos].
+            now apply al_get_set_other_z.
+          * intros x xit Gx Dx Nx. destruct (Nat.eq_dec x (w_next (fst s))) as [->|Nxa].
+            -- exfalso. destruct J1 as (_ & _ & J4 & _).
+               assert (Ia : In (e, w_next (fst s)) (al_set zeqb (i_autos mit) e (w_next (fst s)))).
+               { clear -Hk0. induction (i_autos mit) as [|[k0 v0] r IHr]; cbn; [now left|].
+                 cbn in Hk0. destruct (zeqb e k0); [discriminate|]. right. now apply IHr. }
+               pose proof (J4 m _ e (w_next (fst s)) G1 Ia) as C. unfold cls_of in C. rewrite Gx in C. injection C as C.
+               apply (proj2 (direct_childcls xit)); [left; exact C|exact Dx].
+            -- rewrite <- (F1 x Nx Nxa). exact Gx.
+        + split; [exact Js|split; [exact K|split; [reflexivity|split; [exists mit; auto|auto]]]].
+      - split; [exact Js|split; [exact K|split; [reflexivity|split; [exists mit; auto|auto]]]]. }
+    destruct Step as (J1 & K1 & S1 & (mit1 & G1 & M1 & A1) & F1).
+    assert (Dm1 : direct mit1) by (unfold mk in M1; unfold direct in *; assert (i_cls mit1 = i_cls mit) by congruence; congruence).
+    assert (Hld1 : i_loaded mit1 <> None) by (unfold mk in M1; assert (i_loaded mit1 = i_loaded mit) by congruence; congruence).
+    apply (F1 j jit); [|exact Dj|exact Nj].
+    apply (IH s1 mit1 J1 K1 G1 Dm1 Hld1 Hnd'); try assumption.
+    + intros e' I. rewrite A1; [apply Hk; now right|]. intros ->. apply Ne. exact I.
+    + intros e' ef' aa q I Ha Hq. apply (NAtid_srcs (fst s) (fst s1) _ S1). apply (Hna e' ef' aa q); [now right|exact Ha|exact Hq].
+Qed.
+
+Theorem load_dir_frame n s m mit :
+  J (fst s) -> KK (fst s) -> get_item (fst s) m = Some mit -> direct mit -> i_loaded mit = None ->
+  auto_ok (fst s) (i_tid mit) ->
+  w_err (fst (load (S (S (S n))) s m)) = None ->
+  forall j jit, get_item (fst (load (S (S (S n))) s m)) j = Some jit -> direct jit -> j <> m ->
+                get_item (fst s) j = Some jit.
+Proof.
+  intros Js K Hm Dm Hl Hok.
+  cbn [load]. rewrite Hm.
+  destruct (item_fit (fst s) m) as [f|] eqn:Ef; [|intros _ j jit G _ _; exact G].
+  destruct (fit_source_id (fst s) f) as [src|] eqn:Esrc; [|intros _ j jit G _ _; exact G].
+  destruct (get_src (fst s) src) as [u|] eqn:Eu; [|intros _ j jit G _ _; exact G].
+  destruct (get_type u (i_tid mit)) as [t|] eqn:Et; [|intros _ j jit G _ _; exact G].
+  cbv zeta.
+  set (ld := it_set_loaded mit (Some src)).
+  set (s1 := lift s (fun w => put_item w m ld)).
+  pose proof (kk_au _ K m mit Hm Hl) as Au0.
+  assert (Hnc : forall y, i_cont mit <> Some (PCharge y) /\ i_cont mit <> Some (PAuto y))
+    by (apply (direct_cont_fit (fst s) m mit Js K Hm Dm)).
+  assert (K1 : KK (fst s1)).
+  { unfold s1, lift. cbn [fst]. apply (KK_direct_put (fst s) m mit ld Js K Hm Dm); try reflexivity.
+    - exact Hnc.
+    - intros Hx. discriminate.
+    - intros c cit Gc Hp. destruct (kk_pc _ K c cit m Gc) as (P1 & _). destruct (P1 Hp) as (x & Gx & Hx).
+      rewrite Hm in Gx. injection Gx as <-. exact Hx.
+    - intros c cit Gc Hp. destruct (kk_pc _ K c cit m Gc) as (_ & P2). destruct (P2 Hp) as (x & Gx & Hx).
+      rewrite Hm in Gx. injection Gx as <-. exact Hx.
+    - intros Hf c cit Gc Hp. apply (children_of_detached_unloaded (fst s) m mit c cit Js K Hm Dm Hf Gc Hp). }
+  assert (J1 : J (fst s1)).
+  { unfold s1, lift. cbn [fst]. apply (J_put_keepcls (fst s) m mit ld Js Hm eq_refl).
+    - intros C. exfalso. apply (proj2 (direct_childcls mit)); [exact C|exact Dm].
+    - intros e a I. destruct Js as (_ & _ & J4 & _). apply (J4 m mit e a Hm I).
+    - intros o Ho. destruct Js as (_ & _ & _ & J5). apply (J5 m mit o Hm Ho). }
+  assert (G1 : get_item (fst s1) m = Some ld) by (unfold s1, lift; cbn [fst]; apply get_put_item_same').
+  set (s2 := with_msgs s1 f (fun w => item_loaded_msgs w m)).
+  assert (RO : run_only (fst s1) (fst s2) m).
+  { unfold s2, with_msgs. pose proof (loaded_run_only (fst s1) m) as H. destruct (item_loaded_msgs (fst s1) m). exact H. }
+  assert (F2 : FC (fst s1) (fst s2)).
+  { unfold s2, with_msgs. pose proof (FC_item_loaded_msgs (fst s1) m) as H. destruct (item_loaded_msgs (fst s1) m). exact H. }
+  pose proof (FC_J _ _ F2 J1) as J2.
+  pose proof (KK_same_k _ _ (same_k_run_only_direct _ _ m ld RO G1 Dm) K1) as K2.
+  destruct RO as (U2 & R2 & _). destruct (R2 ld G1) as (r & G2). rewrite G2.
+  set (mit2 := it_set_running ld r) in *.
+  change (fold_left _ (item_effects (fst s2) mit2) s2) with (fold_left (auto_stepf (S (S n)) t m) (item_effects (fst s2) mit2) s2).
+  intros He j jit Gj Dj Nj.
+  assert (S12 : w_srcs (fst s2) = w_srcs (fst s)) by (destruct U2 as (S2 & _); rewrite S2; reflexivity).
+  assert (Ety : item_type (fst s2) mit2 = Some t).
+  { unfold item_type. cbn [i_loaded mit2 ld it_set_running it_set_loaded i_tid]. unfold get_src in *. rewrite S12, Eu. exact Et. }
+  assert (Eun : item_universe (fst s2) mit2 = Some u).
+  { unfold item_universe. cbn [i_loaded mit2 ld it_set_running it_set_loaded]. unfold get_src in *. now rewrite S12. }
+  destruct (Hok src u t Eu Et) as (Hnd & Hauto).
+  assert (G3 : get_item (fst s2) j = Some jit).
+  { apply (autos_fold_direct n t m (item_effects (fst s2) mit2) s2 mit2 J2 K2 G2 Dm); try assumption.
+    - cbn. discriminate.
+    - apply (item_effects_keys_nodup _ _ t Ety Hnd).
+    - intros e _. cbn [i_autos mit2 ld it_set_running it_set_loaded]. now rewrite Au0.
+    - intros e ef aa q I Ha Hq. apply item_effects_in in I as (t' & u' & Ht' & Hu' & It & Ge).
+      rewrite Ety in Ht'. injection Ht' as <-. rewrite Eun in Hu'. injection Hu' as <-.
+      apply (NAtid_srcs (fst s) (fst s2) _ S12). apply (Hauto e ef aa q It Ge Ha Hq). }
+  destruct U2 as (_ & Gx). rewrite (Gx j Nj) in G3. unfold s1, lift in G3. cbn [fst] in G3.
+  now rewrite get_put_item_other in G3.
+Qed.
+
+Lemma load_dir_LS n s m mit :
+  J (fst s) -> KK (fst s) -> CP (fst s) -> LS (fst s) -> get_item (fst s) m = Some mit -> direct mit ->
+  i_loaded mit = None -> auto_ok (fst s) (i_tid mit) ->
+  w_err (fst (load (S (S (S n))) s m)) = None -> LS (fst (load (S (S (S n))) s m)).
+Proof.
+  intros Js K Cp L Hm Dm Hl Hok He.
+  destruct (load_dir n s m mit Js K Cp Hm Dm Hl Hok He) as (_ & _ & _ & (mit' & Gm' & Ecl & Eco & _ & _ & _ & Hsrc) & _ & _).
+  pose proof (load_dir_frame n s m mit Js K Hm Dm Hl Hok He) as Fr.
+  pose proof (direct_cont_fit (fst s) m mit Js K Hm Dm) as Hnc.
+  assert (Ss : same_src (fst s) (fst (load (S (S (S n))) s m))) by (apply same_src_structure; apply S_load).
+  intros j jit' src G D El. destruct (Nat.eq_dec j m) as [->|Nj].
+  - rewrite Gm' in G. injection G as <-. destruct (Hsrc src El) as (f & Ef & Es). exists f. split; [|now rewrite Ss].
+    rewrite Eco. unfold item_fit in Ef. rewrite (item_fit_top 3 (fst s) m mit Hm Hnc) in Ef. unfold fit_of_place.
+    unfold fitcont_of in Ef. destruct (i_cont mit) as [[a b|a b|a b|y|y]|]; try discriminate; exact Ef.
+  - pose proof (Fr j jit' G D Nj) as G0. destruct (L j jit' src G0 D El) as (f & Ef & Es). exists f. split; [exact Ef|now rewrite Ss].
+Qed.
+
 Theorem add_dir n s m mit p :
-  J (fst s) -> KK (fst s) -> CP (fst s) -> get_item (fst s) m = Some mit -> direct mit ->
+  J (fst s) -> KK (fst s) -> CP (fst s) -> LS (fst s) -> get_item (fst s) m = Some mit -> direct mit ->
   i_loaded mit = None -> racklike_of p = Some p -> auto_ok (fst s) (i_tid mit) ->
   w_err (fst (add_item (S (S (S (S n)))) s m p)) = None ->
   let w' := fst (add_item (S (S (S (S n)))) s m p) in
   KK w' /\ w_srcs w' = w_srcs (fst s) /\
   (exists mit', get_item w' m = Some mit' /\ i_cls mit' = i_cls mit /\ i_cont mit' = Some p /\
-                i_state mit' = i_state mit /\ i_charge mit' = i_charge mit) /\ CP w'.
+                i_state mit' = i_state mit /\ i_charge mit' = i_charge mit) /\ CP w' /\ LS w'.
 Proof.
-  intros Js K Cp Hm Dm Hl0 Hp Hok.
+  intros Js K Cp Ls Hm Dm Hl0 Hp Hok.
   set (mc := it_set_cont mit (Some p)).
   set (s1 := lift s (fun w => upd_item w m (fun it => it_set_cont it (Some p)))).
   assert (E1 : fst s1 = put_item (fst s) m mc) by (unfold s1, lift, upd_item; cbn [fst]; now rewrite Hm).
@@ -1759,9 +1956,14 @@ Proof.
   assert (Cp1 : CP (fst s1)).
   { rewrite E1. apply (CP_put_unlisted (fst s) m mit mc Cp Hm eq_refl eq_refl).
     apply (CP_direct_unlisted (fst s) m mit Cp Hm). apply (direct_cont_fit (fst s) m mit Js K Hm Dm). }
+  assert (Ls1 : LS (fst s1)).
+  { rewrite E1. apply (LS_frame (fst s) _ Ls); [apply same_src_structure; apply S_put_item|].
+    intros j jit' Gj Dj. destruct (Nat.eq_dec j m) as [->|Nj].
+    - left. rewrite get_put_item_same' in Gj. injection Gj as <-. exact Hl0.
+    - right. rewrite get_put_item_other in Gj by exact Nj. exists jit'. auto. }
   cbn [add_item]. fold s1.
   destruct (item_fit (fst s1) m) as [f|] eqn:Ef.
-  2:{ intros _. cbv zeta. split; [exact K1|split; [exact S1|split; [|exact Cp1]]]. exists mc. split; [exact G1|]. now repeat split. }
+  2:{ intros _. cbv zeta. split; [exact K1|split; [exact S1|split; [|split; [exact Cp1|exact Ls1]]]]. exists mc. split; [exact G1|]. now repeat split. }
   cbv zeta.
   set (one := fun (s : st) sub => load (S (S (S n))) (with_msgs s f (fun w => item_added_msgs w sub)) sub).
   set (sl := one s1 m).
@@ -1772,7 +1974,7 @@ Proof.
   change (w_err (fst sfin) = None ->
           KK (fst sfin) /\ w_srcs (fst sfin) = w_srcs (fst s) /\
           (exists mit', get_item (fst sfin) m = Some mit' /\ i_cls mit' = i_cls mit /\ i_cont mit' = Some p /\
-                        i_state mit' = i_state mit /\ i_charge mit' = i_charge mit) /\ CP (fst sfin)).
+                        i_state mit' = i_state mit /\ i_charge mit' = i_charge mit) /\ CP (fst sfin) /\ LS (fst sfin)).
   intros He. unfold sfin in *. clear sfin.
   assert (Sone : forall s0 x, sticky (fst s0) (fst (one s0 x))).
   { intros s0 x. unfold one. eapply sticky_trans; [|apply sticky_load]. apply with_msgs_sticky. intros; apply added_sticky. }
@@ -1788,9 +1990,11 @@ Proof.
     destruct (Hok x u t Gu Gt) as (H1 & H2). split; [exact H1|]. intros e ef aa q I Ge Ha Hq.
     apply (NAtid_srcs (fst s) (fst s1) _ S1). now apply (H2 e ef aa q). }
   assert (Cpa : CP (fst sa)) by (rewrite Esa; exact Cp1).
+  assert (Lsl : LS (fst (load (S (S (S n))) sa m))).
+  { apply (load_dir_LS n sa m mc); try (rewrite Esa; assumption); try assumption. }
   destruct (load_dir n sa m mc) as (Jl & Kl & Sl & (ml & Gml & Ecl & Eco & Est & Ech & Etd) & Frl & Cpl);
     try (rewrite Esa; assumption); try assumption.
-  change (load (S (S (S n))) sa m) with sl in Jl, Kl, Sl, Gml, Frl, Cpl.
+  change (load (S (S (S n))) sa m) with sl in Jl, Kl, Sl, Gml, Frl, Cpl, Lsl.
   rewrite Gml in He |- *. unfold child_items in He |- *. rewrite app_nil_r in He |- *.
   destruct (i_charge ml) as [c|] eqn:Ec.
   - cbn [fold_left] in He |- *.
@@ -1812,9 +2016,11 @@ Proof.
     + exists ml. split.
       * destruct Uc as (_ & G). rewrite (G m) by (intros E; now apply Ncm). now rewrite Esac.
       * cbn in Ecl, Eco, Est, Ech. repeat split; congruence.
-    + apply (CP_same_l (fst sac)); [|rewrite Esac; exact Cpl].
-      apply (same_l_upd1_view (fst sac) _ c cit cit' Uc Gc Gc' Vc').
-  - cbn [fold_left]. split; [exact Kl|split; [now rewrite Sl, Esa|split; [|exact Cpl]]].
+    + split; [apply (CP_same_l (fst sac)); [|rewrite Esac; exact Cpl];
+              apply (same_l_upd1_view (fst sac) _ c cit cit' Uc Gc Gc' Vc')|].
+      apply (LS_upd1_leaf (fst sac) _ c cit'); [rewrite Esac; exact Lsl|exact Uc|apply S_load|exact Gc'|].
+      unfold view in Vc'. assert (Ecx : i_cls cit' = i_cls cit) by congruence. unfold direct in *. now rewrite Ecx.
+  - cbn [fold_left]. split; [exact Kl|split; [now rewrite Sl, Esa|split; [|split; [exact Cpl|exact Lsl]]]].
     exists ml. split; [exact Gml|]. cbn in Ecl, Eco, Est, Ech. repeat split; congruence.
 Qed.
 
